@@ -1,0 +1,33 @@
+//go:build verif
+
+package mcp
+
+import (
+	"sync/atomic"
+
+	"trpc.group/trpc-go/trpc-mcp-go/internal/sseutil"
+)
+
+// Verification hooks (build tag "verif"): a yield point is a no-op call placed between two
+// critical sections; a controller installed by the verification harness may block there to
+// realise a particular interleaving. Without the tag the calls compile to nothing.
+
+var verifYieldFn atomic.Value // func(point string)
+
+// VerifSetYield installs (or, with nil, removes) the yield controller for this package and for
+// internal/sseutil.
+func VerifSetYield(fn func(point string)) {
+	if fn == nil {
+		verifYieldFn.Store((func(string))(nil))
+		sseutil.VerifSetYield(nil)
+		return
+	}
+	verifYieldFn.Store(fn)
+	sseutil.VerifSetYield(fn)
+}
+
+func verifYield(point string) {
+	if fn, _ := verifYieldFn.Load().(func(string)); fn != nil {
+		fn(point)
+	}
+}
